@@ -7,6 +7,7 @@ import (
 	"fmt"
 	"sync"
 
+	"github.com/elementsproject/peerswap/lightning"
 	"github.com/elementsproject/peerswap/log"
 	"github.com/elementsproject/peerswap/premium"
 
@@ -987,8 +988,11 @@ func (s *SwapService) lockSwap(swapId, channelId string, fsm *SwapStateMachine) 
 	defer s.Unlock()
 
 	// Check if we already have an active swap on the same channel
+	// The same channel can be written with 'x' or ':' as separator, compare the
+	// normalized form.
+	normalizedChannelId := lightning.Scid(channelId).ClnStyle()
 	for id, swap := range s.activeSwaps {
-		if swap.Data.GetScid() == channelId {
+		if lightning.Scid(swap.Data.GetScid()).ClnStyle() == normalizedChannelId {
 			return ActiveSwapError{channelId: channelId, swapId: id}
 		}
 	}
